@@ -46,7 +46,11 @@ Executor level (`CommandExecutor::execute`, simulation path) — all **full**:
 `x_queued_has_no_effect`, `x_exec_equals_sequential`, `x_watch_detects_change` (the snapshot is
 the whole `Value`), `x_watch_snapshot` + `x_rewatch_keeps_first` (a repeated WATCH keeps the first
 snapshot since the `fix:` commit; pinned commit: `x_rewatch_forgets_change_pinned_counterexample`),
-`x_discard_leaves_store`, `x_watchfail_leaves_store`, `x_table_*`.
+`x_discard_leaves_store`, `x_watchfail_leaves_store`, `x_table_*`; exact boundary
+`x_watch_detects_iff` (nil ⇔ the stored value of a watched key differs — any type),
+`x_watch_detects_iff_kv` / `x_detects_every_change` on the concrete store with all five value
+types (sorted-set scores included); an equality that ignores scores is refuted:
+`x_score_blind_equality_counterexample`.
 -/
 namespace RedisVerif
 namespace C05
@@ -706,15 +710,16 @@ theorem watch_txn_detects_change_partial (B : Backend σ κ γ ρ) (t : ConnTxn 
 end
 
 /-- the key is a string or missing -/
-def notList (s : KV.Store) (k : Nat) : Bool :=
+def strOrMissing (s : KV.Store) (k : Nat) : Bool :=
   match NMap.get s k with
-  | some (.list _) => false
-  | _ => true
+  | some (.str _) => true
+  | none => true
+  | _ => false
 
 theorem get_reply_faithful (s0 s : KV.Store) (k : Nat) (hv : NMap.get s k ≠ NMap.get s0 k)
-    (hs : notList s0 k = true ∨ notList s k = true) :
+    (hs : strOrMissing s0 k = true ∨ strOrMissing s k = true) :
     KV.backend.getReply s k ≠ KV.backend.getReply s0 k := by
-  simp only [KV.backend, KV.backendWith, KV.execWith, notList] at *
+  simp only [KV.backend, KV.backendWith, KV.execWith, strOrMissing] at *
   cases h0 : NMap.get s0 k with
   | none =>
     cases h1 : NMap.get s k with
@@ -726,20 +731,20 @@ theorem get_reply_faithful (s0 s : KV.Store) (k : Nat) (hv : NMap.get s k ≠ NM
     | some v1 =>
       cases v0 <;> cases v1 <;> simp_all
 
-/-- the key holds a list -/
-def isList (s : KV.Store) (k : Nat) : Bool := !notList s k
+/-- the key holds a non-string value (list, hash, set or sorted set) -/
+def nonString (s : KV.Store) (k : Nat) : Bool := !strOrMissing s k
 
-/-- **exact characterisation of what the GET-reply snapshot sees** (concrete store): the snapshot
-    comparison detects a change of the value of `k` between `s0` (WATCH) and `s` (EXEC) iff the
-    value differs and the key is not a list at BOTH moments.  Invisible transitions are exactly
-    list → different list (and, in the real executor, any non-string type → any non-string value:
-    the GET reply is the constant WRONGTYPE error); every transition that involves a string or a
-    missing key on either side — string→string', string→missing, missing→string, string→list,
-    list→string, missing→list, list→missing — is detected. -/
+/-- **exact characterisation of what the connection-level GET-reply snapshot sees** (concrete
+    store): the snapshot comparison detects a change of the value of `k` between `s0` (WATCH) and
+    `s` (EXEC) iff the value differs and the key is not a NON-STRING value (list, hash, set, sorted
+    set) at BOTH moments.  Invisible transitions are exactly non-string → different non-string
+    (element added / removed / replaced, field value, score, type change among list / hash / set /
+    zset: the GET reply is the constant WRONGTYPE error at both moments); every transition that
+    involves a string or a missing key on either side is detected. -/
 theorem watch_detects_iff (s0 s : KV.Store) (k : Nat) :
     KV.backend.getReply s k ≠ KV.backend.getReply s0 k ↔
-      (NMap.get s k ≠ NMap.get s0 k ∧ ¬ (isList s0 k = true ∧ isList s k = true)) := by
-  simp only [KV.backend, KV.backendWith, KV.execWith, isList, notList]
+      (NMap.get s k ≠ NMap.get s0 k ∧ ¬ (nonString s0 k = true ∧ nonString s k = true)) := by
+  simp only [KV.backend, KV.backendWith, KV.execWith, nonString, strOrMissing]
   cases h0 : NMap.get s0 k with
   | none =>
     cases h1 : NMap.get s k with
@@ -757,7 +762,7 @@ theorem exec_proceeds_on_list_change (t : ConnTxn Nat KV.Cmd KV.Rep) (s0 s : KV.
     (hin : t.inTxn = true) (herr : t.errors = false)
     (hw : t.watched = [(k, KV.backend.getReply s0 k)]) :
     (step KV.backend [] t s .exec).2.2 ≠ .nil ↔
-      (NMap.get s k = NMap.get s0 k ∨ (isList s0 k = true ∧ isList s k = true)) := by
+      (NMap.get s k = NMap.get s0 k ∨ (nonString s0 k = true ∧ nonString s k = true)) := by
   rw [Ne, exec_aborts_iff_partial KV.backend [] t s hin herr noInterleaving_nil, hw]
   simp only [List.mem_singleton, exists_eq_left]
   rw [watch_detects_iff]
@@ -769,7 +774,7 @@ theorem exec_proceeds_on_list_change (t : ConnTxn Nat KV.Cmd KV.Rep) (s0 s : KV.
 theorem watch_detects_change_strings_partial (t : ConnTxn Nat KV.Cmd KV.Rep) (s0 s : KV.Store)
     (k : Nat) (hin : t.inTxn = true) (herr : t.errors = false)
     (hm : (k, KV.backend.getReply s0 k) ∈ t.watched) (hv : NMap.get s k ≠ NMap.get s0 k)
-    (hs : notList s0 k = true ∨ notList s k = true) :
+    (hs : strOrMissing s0 k = true ∨ strOrMissing s k = true) :
     step KV.backend [] t s .exec = (ConnTxn.idle, s, .nil) :=
   watch_detects_change_partial KV.backend [] t s k _ hin herr noInterleaving_nil hm
     (get_reply_faithful s0 s k hv hs)
@@ -1000,6 +1005,24 @@ theorem x_watch_detects_change (X : XBackend σ κ γ ρ ν) (okR : ρ) (t : ExT
   rw [xstep_exec X okR t s hin, hany]
   rfl
 
+/-- **executor level, exact boundary** (any backend, any value type): EXEC answers nil ⇔ the
+    stored value of some watched key differs from its snapshot — the snapshot is the whole value
+    (`Option<Value>` compared with `!=`), nothing of it is invisible -/
+theorem x_watch_detects_iff (X : XBackend σ κ γ ρ ν) (okR : ρ) (t : ExTxn κ γ ν) (s : σ)
+    (hin : t.inTxn = true) :
+    (xstep X okR t s .exec).2.2 = .nil ↔ ∃ p ∈ t.watched, X.value s p.1 ≠ p.2 := by
+  rw [xstep_exec X okR t s hin]
+  cases hany : (t.watched.any fun p => decide (X.value s p.1 ≠ p.2))
+  · simp only [Bool.false_eq_true, if_false]
+    constructor
+    · intro h; simp at h
+    · rintro ⟨p, hp, hd⟩
+      have := List.any_eq_false.mp hany p hp
+      simp [hd] at this
+  · simp only [if_true, true_iff]
+    obtain ⟨p, hp, hd⟩ := List.any_eq_true.mp hany
+    exact ⟨p, hp, by simpa using hd⟩
+
 theorem x_watchfail_leaves_store (X : XBackend σ κ γ ρ ν) (okR : ρ) (t : ExTxn κ γ ν) (s : σ)
     (hin : t.inTxn = true) (h : (xstep X okR t s .exec).2.2 = .nil) :
     (xstep X okR t s .exec).2.1 = s := by
@@ -1135,6 +1158,62 @@ theorem x_rewatch_forgets_change_pinned_counterexample : ¬ C05_x_rewatch_keeps_
   revert this
   decide
 
+/-! ### executor level on the concrete store: every type, scores included -/
+
+/-- the executor-level WATCH of a backend that compares snapshots through `proj` detects EVERY
+    change of the stored value of a watched key (string, list, hash, set, sorted set incl. its
+    scores, creation, deletion, type change) -/
+def C05_x_detects_every_change (proj : KV.Val → KV.Val) : Prop :=
+  ∀ (t : ExTxn Nat KV.Cmd KV.Val) (s0 s : KV.Store) (k : Nat),
+    t.inTxn = true → (k, (NMap.get s0 k).map proj) ∈ t.watched →
+    NMap.get s k ≠ NMap.get s0 k →
+    xstep (KV.xbackendProj proj) (.simple .ok) t s .exec = (ExTxn.idle, s, .nil)
+
+/-- **full**: the current code compares the whole `Value` (`proj = id`) -/
+theorem x_detects_every_change : C05_x_detects_every_change id := by
+  intro t s0 s k hin hm hne
+  apply x_watch_detects_change (KV.xbackendProj id) (.simple .ok) t s k _ hin hm
+  simpa [KV.xbackendProj] using hne
+
+/-- on the concrete store, with `k` watched at `s0`: EXEC aborts ⇔ the value of `k` differs —
+    for ALL five types, scores of a sorted set included (contrast `watch_detects_iff` for the
+    connection level, where every non-string → non-string change is invisible) -/
+theorem x_watch_detects_iff_kv (t : ExTxn Nat KV.Cmd KV.Val) (s0 s : KV.Store) (k : Nat)
+    (hin : t.inTxn = true) (hw : t.watched = [(k, NMap.get s0 k)]) :
+    (xstep KV.xbackend (.simple .ok) t s .exec).2.2 = .nil ↔ NMap.get s k ≠ NMap.get s0 k := by
+  rw [x_watch_detects_iff KV.xbackend (.simple .ok) t s hin, hw]
+  simp [KV.xbackend]
+
+/-- an equality on sorted sets that ignores the scores (same cardinality, same members in the
+    same rank order) breaks it: `ZADD board 10 alice 20 bob; WATCH board; ZADD board 15 alice;
+    MULTI; SET winner bob; EXEC` runs the queue although the value of `board` changed -/
+theorem x_score_blind_equality_counterexample : ¬ C05_x_detects_every_change KV.blindScores := by
+  intro h
+  have := h { inTxn := true, queue := [.cmd (.set 9 [98])],
+              watched := [(1, (some (KV.Val.zset [(5, 10), (6, 20)])).map KV.blindScores)] }
+    [(1, .zset [(5, 10), (6, 20)])] [(1, .zset [(5, 15), (6, 20)])] 1 rfl (by decide) (by decide)
+  revert this
+  decide
+
+/-- the same input on the current model: detected; and one witness per type of a change the
+    executor level sees although the connection level (GET-reply snapshot) does not -/
+example :
+    let w (v : KV.Val) : ExTxn Nat KV.Cmd KV.Val :=
+      { inTxn := true, queue := [.cmd (.set 9 [98])], watched := [(1, some v)] }
+    let nil (v v' : KV.Val) : Bool :=
+      decide ((xstep KV.xbackend (.simple .ok) (w v) [(1, v')] .exec).2.2 = .nil)
+    -- sorted set: score-only change keeping the rank order; with reorder; one-member set
+    nil (.zset [(5, 10), (6, 20)]) (.zset [(5, 15), (6, 20)]) = true ∧
+    nil (.zset [(5, 10), (6, 20)]) (.zset [(5, 25), (6, 20)]) = true ∧
+    nil (.zset [(5, 10)]) (.zset [(5, 11)]) = true ∧
+    -- hash: field value change; set: member replaced (same cardinality); list: same-length
+    nil (.hash [(7, [1])]) (.hash [(7, [2])]) = true ∧
+    nil (.set [3]) (.set [4]) = true ∧
+    nil (.list [[1], [2]]) (.list [[9], [2]]) = true ∧
+    -- type change, and the unchanged value
+    nil (.list [[1]]) (.set [1]) = true ∧
+    nil (.zset [(5, 10)]) (.zset [(5, 10)]) = false := by decide
+
 /-! ## non-vacuity: concrete, non-trivial instances of the hypotheses -/
 
 /-- `queued_has_no_effect`: a body with data commands, an unknown command, an arity error, a
@@ -1177,7 +1256,7 @@ example :
     step KV.backend [] t [(1, .str [49])] .exec = (ConnTxn.idle, [(1, .str [49])], .nil) ∧
     step KV.backend [] t [] .exec = (ConnTxn.idle, [], .nil) ∧
     step KV.backend [] t [(1, .list [[48]])] .exec = (ConnTxn.idle, [(1, .list [[48]])], .nil) ∧
-    notList [(1, .str [48])] 1 = true := by decide
+    strOrMissing [(1, .str [48])] 1 = true := by decide
 
 /-- `watch_txn_detects_change_partial`: WATCH k; other client SET k; own GET; MULTI; SET x;
     other client APPEND k; EXEC → nil, nothing applied -/
